@@ -22,6 +22,7 @@ sys.path.insert(0, ROOT)
 SMALL = (4096, 32768, 65536)
 MID = (16384, 262144, 1048576)
 HOST = (32768, 1310720, 56623104)
+ODD = (6144, 49152, 98304)   # derived constants that are not powers of two: MUL_BLOCKSIZE 313, Strassen cutoff 627, PLE cutoff 12288
 
 def C(l, sse2=1, caches=1, omp=0, ndebug=1, cc="gcc", san="asan", opt="-O1", vg=0):
     # configure.ac: --enable-thread-safe turns both caches off; OpenMP turns the header cache off
@@ -32,6 +33,7 @@ CONFIGS = {
     "small-nosse-ts-asan": C(SMALL, sse2=0, caches=0),
     "host-asan": C(HOST),
     "mid-debug-asan": C(MID, ndebug=0),
+    "odd-asan": C(ODD),
     "small-plain": C(SMALL, san="none", opt="-O2"),
     "small-ts-plain-vg": C(SMALL, caches=0, san="none", opt="-O1", vg=1),
     "host-nosse-plain": C(HOST, sse2=0, caches=0, san="none", opt="-O2"),
